@@ -341,6 +341,10 @@ func (s *Swarm[T]) handleAsk(ctx context.Context, stream quic.Stream, srcAddr, d
 		return err
 	}
 	log.Debug("received ask request", logctx.Int("len", n))
+	if !s.allowFunc(srcAddr) {
+		// a connection we dialed ourselves: the whitelist still decides who is heard
+		return stream.Close()
+	}
 	m := p2p.Message[Addr[T]]{
 		Dst:     dstAddr,
 		Src:     srcAddr,
@@ -371,6 +375,9 @@ func (s *Swarm[T]) handleTells(ctx context.Context, sess quic.Connection, srcAdd
 			data, err := io.ReadAll(lr)
 			if err != nil {
 				logctx.Errorln(ctx, err)
+				return
+			}
+			if !s.allowFunc(srcAddr) {
 				return
 			}
 			m := p2p.Message[Addr[T]]{
